@@ -8,6 +8,7 @@ from rdflib.namespace import XSD
 from pyshacl.consts import SH_construct
 from pyshacl.errors import ReportableRuntimeError, RuleLoadError
 from pyshacl.helper import get_query_helper_cls
+from pyshacl.helper.sparql_query_helper import query_with_shapes_graph_text
 from pyshacl.rdfutil import clone_graph
 
 from ..shacl_rule import SHACLRule
@@ -92,7 +93,7 @@ class SPARQLRule(SHACLRule):
                     if found_this:
                         init_bindings['this'] = a
                     c = self._qh.apply_prefixes(c)
-                    results = data_graph.query(c, initBindings=init_bindings)
+                    results = query_with_shapes_graph_text(data_graph, c, init_bindings)
                     if results.type != "CONSTRUCT":
                         raise ReportableRuntimeError("Query executed by a SHACL SPARQLRule must be CONSTRUCT query.")
                     this_added = False
